@@ -93,7 +93,7 @@ def _run_crosshair(cond, fn, timeout):
         StateSpace.fork_parallel = fork_parallel
         _cc._vf_patched = True
     opts = AnalysisOptionSet(per_condition_timeout=float(timeout), report_all=True,
-                             per_path_timeout=float(max(30.0, timeout / 4.0)),
+                             per_path_timeout=30.0,
                              max_uninteresting_iterations=10 ** 9)
     checkables = analyze_function(fn, opts)
     msgs = list(run_checkables(checkables))
